@@ -641,6 +641,12 @@ class DynamicalMatrixGL(DynamicalMatrixNAC):
             exp_cutoff = 1e-10
             GeG = self._G_cutoff**2 * np.trace(self._dielectric) / 3
             self._Lambda = np.sqrt(-GeG / 4 / np.log(exp_cutoff))
+        # Data derived from the previous NAC parameters are invalidated.
+        self._Gonze_force_constants = None
+        self._dd_q0 = None
+        self._dd_real_q0 = None
+        self._dd_limiting = None
+        self._H = None
 
     def make_Gonze_nac_dataset(self):
         """Prepare Gonze-Lee force constants.
